@@ -178,6 +178,32 @@ def _fresh_elem(inner, nm, nd, st):
             return Arr((ln,), lambda j: _wrap(ef(*zi, to_z3(j)), sub), kind="list", etype=sub)
 
         return elem
+    if inner.startswith("opt[") and inner.endswith("]"):
+        sub = inner[4:-1]
+        nonef = z3.Function(nm + "#inone", *([z3.IntSort()] * nd), z3.BoolSort())
+        inner_elem = _fresh_elem(sub, nm + "#some", nd, st)
+
+        def elem(*idx):
+            return Opt(nonef(*[to_z3(i) for i in idx]), inner_elem(*idx))
+
+        return elem
+    if inner[:3] == "arr" and inner[3:4].isdigit() and inner[4:5] == "[":
+        # elements that are k-d arrays (a list of matrices): shapes and entries are functions of the outer index
+        k = int(inner[3])
+        sub = inner[5:-1]
+        shf = [z3.Function(f"{nm}#is{d}", *([z3.IntSort()] * nd), z3.IntSort()) for d in range(k)]
+        ef = z3.Function(nm + "#iel", *([z3.IntSort()] * (nd + k)), _zsort(sub))
+
+        def elem(*idx):
+            zi = [to_z3(i) for i in idx]
+            shape = []
+            for f_ in shf:
+                n_ = f_(*zi)
+                st.fact(n_ >= 0)
+                shape.append(n_)
+            return Arr(tuple(shape), lambda *j: _wrap(ef(*zi, *[to_z3(x) for x in j]), sub), kind="ndarray", etype=sub)
+
+        return elem
     f = z3.Function(nm + "#el", *([z3.IntSort()] * nd), _zsort("int" if inner == "nat" else inner))
     if inner == "nat":
         def elem(*idx):
